@@ -510,12 +510,12 @@ def r_endconstruction(root):
                     r_ = pyeval.Raised("TypeError"); r_.value = {".cls": "TypeError", ".args": ("unexpected keyword",)}; raise r_
             return pyeval.Method(f)
         Base = pyeval.ClassObj("PlainBase", {"__init__": init("inherited constructor"), "__name__": "PlainBase"})
-        attrs = {"name": HS({".name": "name"}), "kids": HS({".name": "kids"})}
+        attrs = {"name": HS({".name": "name"}), "kids": HS({".name": "kids"}), "count": HS({".name": "count"}), "label": HS({".name": "label"}), "flag": HS({".name": "flag"})}
         U1 = pyeval.ClassObj("U1", {"__init__": init("own constructor"), "_tx_attrs": dict(attrs), "_tx_obj_attrs": {}, "__name__": "U1"})
         U2 = pyeval.ClassObj("U2", {"_tx_attrs": dict(attrs), "_tx_obj_attrs": {}, "__name__": "U2"}, bases=[Base])
         objs = [pyeval.InstObj(U1, {"tag": "o1"}), pyeval.InstObj(U2, {"tag": "o2"}), pyeval.InstObj(U1, {"tag": "o3"})]
         parent = HS({".kind": "obj", ".name": "container"})
-        for i, o in enumerate(objs): o.cls.own["_tx_obj_attrs"][id(o)] = {"name": "n%d" % i, "kids": [i], "parent": parent, "_tx_position": 10 * i, "_tx_position_end": 10 * i + 5}
+        for i, o in enumerate(objs): o.cls.own["_tx_obj_attrs"][id(o)] = {"name": "n%d" % i, "kids": [i] if i else [], "count": 0, "label": "", "flag": False, "parent": parent, "_tx_position": 10 * i, "_tx_position_end": 10 * i + 5}      # collected values may be falsy: 0, '', False, an empty list, position 0
         parser = HS({".kind": "parser", "._user_class_inst": list(objs), "._user_obj_ids": [id(o) for o in objs], ".dprint": pyeval.PyFn(lambda *a: None), ".debug": False,
                      "._restore_user_attr_methods": pyeval.PyFn(lambda: ev.append(("restore",)))})
         model = pyeval.InstObj(pyeval.ClassObj("Model", {"__name__": "Model"}), {"_tx_reference_resolver": "the resolver", "_tx_parser": parser})
@@ -531,11 +531,12 @@ def r_endconstruction(root):
         if not ok: out.append(Finding("C14", "C14.q", M, W, what, msg))
     k, v, ev, objs, (U1, U2), parser, model, parent = scenario()
     inits = [e for e in ev if e[0] == "init"]
-    want = [("init", "o1", "own constructor", {"name": "n0", "kids": [0], "parent": parent}), ("init", "o2", "inherited constructor", {"name": "n1", "kids": [1], "parent": parent}), ("init", "o3", "own constructor", {"name": "n2", "kids": [2], "parent": parent})]
+    fz = {"count": 0, "label": "", "flag": False}
+    want = [("init", "o1", "own constructor", dict(fz, name="n0", kids=[], parent=parent)), ("init", "o2", "inherited constructor", dict(fz, name="n1", kids=[1], parent=parent)), ("init", "o3", "own constructor", dict(fz, name="n2", kids=[2], parent=parent))]
     rep("every user object is initialised once, in creation order, with the attributes of its rule and parent", k == "ret" and inits == want and ev[:1] == [("restore",)],
         "ending the construction of a model with three user objects (o1: own constructor, o2: constructor inherited from a plain Python base class, o3) %s with the steps %s; documented: the instrumentation is restored, then o1, o2, o3 are each initialised exactly once with name, kids and parent (collected extras such as _tx_position are not constructor arguments)" % ("returns" if k == "ret" else "raises " + v.cls, [(e[0],) + tuple(e[1:3]) + (sorted(e[3]),) if e[0] == "init" else e for e in ev]))
     if k == "ret":
-        rep("the collected attributes are set on the object and leave the class's storage", all(o.own.get("name") == "n%d" % i and o.own.get("_tx_position") == 10 * i and o.own.get("parent") is parent for i, o in enumerate(objs)) and not U1.own["_tx_obj_attrs"] and not U2.own["_tx_obj_attrs"] and "_tx_reference_resolver" not in model.own,
+        rep("the collected attributes are set on the object and leave the class's storage", all(o.own.get("name") == "n%d" % i and o.own.get("_tx_position") == 10 * i and o.own.get("parent") is parent and o.own.get("count", None) == 0 and o.own.get("label", None) == "" and o.own.get("flag", None) is False and o.own.get("kids", None) == ([i] if i else []) for i, o in enumerate(objs)) and not U1.own["_tx_obj_attrs"] and not U2.own["_tx_obj_attrs"] and "_tx_reference_resolver" not in model.own,
             "after the end of the construction the objects carry %s, the classes' storages hold %d / %d entries and the construction mark is %s; documented: every collected attribute (also _tx_position) is set on its object, the storages are empty, the mark is gone" % ([sorted(k_ for k_ in o.own if k_ != "tag") for o in objs], len(U1.own["_tx_obj_attrs"]), len(U2.own["_tx_obj_attrs"]), "still there" if "_tx_reference_resolver" in model.own else "gone"))
     k, v, ev, objs, (U1, U2), parser, model, parent = scenario(failing="o2")
     okf = k == "raise" and v.cls == "TypeError" and [e[1] for e in ev if e[0] == "init"] == ["o1", "o2"] and parser["._user_obj_ids"] == [id(o) for o in objs] and id(objs[2]) in U1.own["_tx_obj_attrs"]
